@@ -660,6 +660,15 @@ def runTconn (ws : List String) : String :=
   | [_, lib0, srv, ca, names, host, payload] =>
     -- `<lib>[:<path>]`: `TlsConnector::service(config)` (default, `k`), or the factory `TlsConnector::new(config)`
     -- through `new_service` (`f`), with a clone of the factory (`cf`) or of the service (`fc`, `kc`)
+    -- `#<slot>` (0..3) / `#<slot>c`: the call goes to the service instance kept in that slot of the case (built on
+    -- first use along `<path>`, reused afterwards) / to a fresh clone of it.  A connector service holds nothing but
+    -- its configuration, so the model's answer does not depend on the slot: every call is judged on its own.
+    let (lib0, slotOk) : String × Bool :=
+      match lib0.splitOn "#" with
+      | [l] => (l, true)
+      | [l, sl] => (l, sl == "0" || sl == "1" || sl == "2" || sl == "3" || sl == "0c" || sl == "1c" || sl == "2c" || sl == "3c")
+      | _ => (lib0, false)
+    if !slotOk then "bad-op" else
     let (lib, path?) : String × Option Path :=
       match lib0.splitOn ":" with
       | [l] => (l, some Path.k)
